@@ -1329,3 +1329,20 @@ MA('C09', 'SeparableSum gradient reverses the components', DFUN,
 MA('C09', 'linear functional derivative via gradient.T (regression)',
    'odl/solvers/functional/functional.py', 'Functional.derivative',
    'if self.is_linear:...', 'pass', 'field')
+DOPS_ = 'odl/operator/default_ops.py'
+MA('C06', 'PowerOperator derivative keeps the exponent', DOPS_,
+   'PowerOperator.derivative',
+   'return self.exponent * MultiplyOperator(point ** (self.exponent - 1), domain=self.domain, range=self.range)',
+   'return self.exponent * MultiplyOperator(point ** self.exponent, domain=self.domain, range=self.range)',
+   'PowerOperator[')
+MA('C06', 'NormOperator derivative not normalised', DOPS_,
+   'NormOperator.derivative', 'return InnerProductOperator(point / norm)',
+   'return InnerProductOperator(point)', 'NormOperator[')
+MA('C06', 'DistOperator derivative divides by the squared distance', DOPS_,
+   'DistOperator.derivative', 'return InnerProductOperator(diff / dist)',
+   'return InnerProductOperator(diff / dist ** 2)', 'DistOperator[')
+MA('C06', 'Reduction derivative taken at the first component', 'odl/operator/pspace_ops.py',
+   'ReductionOperator.derivative',
+   'return ReductionOperator(*[op.derivative(xi) for op, xi in zip(self.operators, x)])',
+   'return ReductionOperator(*[op.derivative(x[0]) for op, xi in zip(self.operators, x)])',
+   'ReductionOperator[')
